@@ -26,17 +26,20 @@ func (c *captureSender) SendMsg(hwebsocket.Msg)     {}
 // statCaseWrap runs one short measurement across a wrap of the 32-bit nanosecond clock the ping ids are taken from (one
 // every 4.29 s): the ids of the later rounds are then numerically smaller than those of the earlier ones.
 func statCaseWrap(rnd *rand.Rand, key *ecdsa.PrivateKey, out *bufio.Writer) {
-	for uint32(time.Now().UnixNano()) < 0xFFFFFFFF-1_500_000 {
+	// start within 25 ms before the wrap (a late wake-up on a loaded machine only costs one more turn of the clock, and
+	// at most three are tried) and let the rounds take 10 ms each: at least 30 ms, so the measurement straddles the wrap
+	for try := 0; try < 3; try++ {
 		left := time.Duration(0xFFFFFFFF-uint32(time.Now().UnixNano())) * time.Nanosecond
-		if left > 3*time.Millisecond {
-			time.Sleep(left - 2*time.Millisecond)
+		if left > 25*time.Millisecond {
+			time.Sleep(left - 15*time.Millisecond)
+		}
+		if time.Duration(0xFFFFFFFF-uint32(time.Now().UnixNano()))*time.Nanosecond <= 25*time.Millisecond {
+			break
 		}
 	}
-	statCaseN(rnd, key, out, 3+rnd.Intn(3), time.Millisecond)
+	statCaseN(rnd, key, out, 3+rnd.Intn(3), 10*time.Millisecond)
 }
 
-// statCaseLong runs one measurement that lasts longer than the 32-bit nanosecond clock takes to go round (4.29 s): a slow
-// client, or many rounds over a long link.
 func statCaseLong(rnd *rand.Rand, key *ecdsa.PrivateKey, out *bufio.Writer) {
 	statCaseN(rnd, key, out, 3+rnd.Intn(2), 1500*time.Millisecond)
 }
